@@ -360,6 +360,23 @@ func generate(w *world, thorough bool) []*Case {
 	for _, n := range []string{"blocktxn", "block", "cmpctblock-missing", "tx"} {
 		g.families(g.t(n), cmpct, "vtcs", true)
 	}
+	// block-related commands while a full-block download from this peer is in flight
+	dl := g.ctx["dl"]
+	for _, n := range []string{"blocktxn", "block", "cmpctblock-missing"} {
+		g.families(g.t(n), dl, "vtcs", thorough)
+	}
+	for _, n := range []string{"cmpctblock-full", "cmpctblock-2pre", "getblocktxn", "notfound-blk", "notfound", "headers", "headers-0", "inv-1", "inv", "getdata", "block-known", "tx"} {
+		if thorough {
+			g.families(g.t(n), dl, "vtcs", true)
+		} else {
+			g.families(g.t(n), dl, "vc", false)
+		}
+	}
+	for _, t := range g.ts {
+		if thorough || t.cmd == "ping" || t.cmd == "pong" || t.cmd == "getheaders" {
+			g.families(t, dl, "v", false)
+		}
+	}
 	// version handshake of the IBD node (drops peers without NODE_NETWORK, "Knots")
 	g.add("valid", "version-nonetwork", ibd0(ibd), mev("version", versionPl("/Satoshi:25.0.0/", 0x408, true)))
 	g.add("valid", "version-knots", ibd0(ibd), mev("version", versionPl("/Satoshi:25.0.0/Knots:20230101/", 0x409, true)))
@@ -467,6 +484,7 @@ type tally struct {
 	libInputs int64
 	conns     int64
 	selfOK    int
+	dlOK      int
 	usNet     int64
 	usNetMax  int64
 	usLib     int64
@@ -636,6 +654,13 @@ func main() {
 				selfFail.Store(cs.Self + ": " + res.Outcome)
 			}
 			return
+		}
+		if cs.Kind == "net" && cs.Ctx == "dl" && cs.Family == "valid" && cs.Tmpl == "ping" {
+			if !strings.Contains(res.Outcome, "sent_getdata") || !strings.Contains(res.Outcome, "bip=2") {
+				selfFail.Store("context dl was not established (no full-block download in flight): " + res.Outcome)
+			} else {
+				t.dlOK++
+			}
 		}
 		oc := cmd + " -> " + res.Outcome
 		if cs.Kind == "lib" {
@@ -829,6 +854,7 @@ func main() {
 		"violating_cases_per_key":  perKey,
 		"worker_deaths_in_batches": t.deaths,
 		"timing_disturbed_reruns":  t.disturbed,
+		"context_dl_established":   t.dlOK,
 		"oracle_selftests_passed":  t.selfOK,
 		"samples":                  samples.L,
 		"confirmation_runs":        confRuns,
